@@ -64,3 +64,35 @@ pub fn stream<T: Hash>(v: &T) -> Vec<u8> {
     v.hash(&mut r);
     r.0
 }
+
+/// Records only the bytes, without call boundaries: `std::hash::Hasher` does not promise that
+/// `write(&[1, 2]); write(&[3])` differs from `write(&[1]); write(&[2, 3])` (SipHash, the default
+/// hasher, does not distinguish them), so two values are only safely told apart if the
+/// *concatenated* byte streams differ - which is how the property is worded ("feed a different
+/// byte stream to the hasher").
+#[derive(Default, Clone, PartialEq, Eq, Debug)]
+pub struct Raw(pub Vec<u8>);
+impl Hasher for Raw {
+    fn finish(&self) -> u64 {
+        let mut h: u64 = 0xcbf29ce484222325;
+        for b in &self.0 {
+            h ^= *b as u64;
+            h = h.wrapping_mul(0x100000001b3);
+        }
+        h
+    }
+    fn write(&mut self, bytes: &[u8]) {
+        self.0.extend_from_slice(bytes);
+    }
+    fn write_usize(&mut self, i: usize) {
+        self.0.extend_from_slice(&(i as u64).to_le_bytes());
+    }
+    fn write_isize(&mut self, i: isize) {
+        self.0.extend_from_slice(&(i as i64).to_le_bytes());
+    }
+}
+pub fn raw_stream<T: Hash>(v: &T) -> Vec<u8> {
+    let mut r = Raw::default();
+    v.hash(&mut r);
+    r.0
+}
